@@ -48,6 +48,12 @@ bool ctl_half_update(bag *b, uint32_t need) {                              /* R7
     b->vals = nv; return true;
 }
 
+bool ctl_realloc_in_place(bag *b, uint32_t need) {                         /* R8: the classic p = realloc(p, n) */
+    b->vals = realloc(b->vals, (size_t)need * 2);
+    if (!b->vals) return false;
+    b->cap = need; return true;
+}
+
 /* ---- clean ---- */
 size_t ctl_clean_joint(const uint64_t *in, size_t n, uint64_t *out) {
     uint64_t *a = malloc(n * 8), *b = malloc(n * 8);
